@@ -434,7 +434,11 @@ def statTime (na : NA) : ColStat R → Option (List Int)
 def statDim : ColStat R → Option Nat | .emb d => some d | _ => none
 
 /-- `[stats[X] for stats in stats_list]`; `none` = KeyError -/
-def gather {α β : Type} (f : α → Option β) (xs : List α) : Option (List β) := xs.mapM f
+def gather {α β : Type} (f : α → Option β) : List α → Option (List β)
+  | [] => some []
+  | x :: xs => match f x, gather f xs with
+    | some y, some ys => some (y :: ys)
+    | _, _ => none
 
 /-- the `fill_values` part of `StypeEncoder.init_modules`: outer `none` = raises -/
 def mkFill (st : Stype) (na : Option NA) (stats : List (ColStat R)) : Option (Option (Fill R)) :=
@@ -456,6 +460,14 @@ def cumsum : List Nat → List Nat
   | x :: xs => x :: (cumsum xs).map (· + x)
 
 def embOffsets (ns : List Nat) : List Int := (cumsum ((0 :: ns).dropLast)).map Int.ofNat
+
+/-- `offset` of a materialized MultiEmbeddingTensor whose columns have widths `dims` -/
+def metOffsets (dims : List Nat) : List Nat := 0 :: cumsum dims
+
+/-- `StatType.YEAR_RANGE[0]` = `min(ser.dt.year.values)` over the fitted (non-missing) cells -/
+def yearMin : List Int → Int
+  | [] => 0
+  | y :: ys => ys.foldl min y
 
 /-- `CYCLIC_VALUES_NORMALIZATION_CONSTANT` -/
 def cyclicConst : List Int := [12, 31, 7, 24, 60, 60]
